@@ -139,6 +139,30 @@ def check_props_file(pid, extra_allowed=()):
     return dict(ok=ok, rc=rc, theorems=thms, axioms=sorted(axioms), bad_axioms=bad_ax, closed_blocks=blocks, print_assumptions=n_print, log=out[-3000:])
 
 
+def coqchk_props(pid, extra_allowed=(), timeout=2400):
+    """thorough tier: re-check the compiled property file and everything it depends on with the independent checker
+    coqchk, and read the axioms it reports. Returns dict(ok, axioms, log)."""
+    d = os.path.join(RUN, "coqchk", pid)
+    shutil.rmtree(d, ignore_errors=True)
+    os.makedirs(d)
+    shutil.copy(os.path.join(COQ, f"Props{pid}.v"), d)
+    rc, out = sh(f"timeout 900 coqc -q -Q {COQ} Core -Q {d} Chk {d}/Props{pid}.v", timeout=960, cwd=d)
+    if rc != 0:
+        return dict(ok=False, axioms=[], log="coqc failed before coqchk:\n" + out[-1500:])
+    rc, out = sh(f"timeout {timeout} coqchk -o -silent -Q {COQ} Core -Q {d} Chk Chk.Props{pid}", timeout=timeout + 60, cwd=d)
+    shutil.rmtree(d, ignore_errors=True)
+    axioms = []
+    m = re.search(r"\* Axioms:(.*?)\n\s*\n\* Constants/Inductives relying on type-in-type", out, flags=re.S)
+    if m and "<none>" not in m.group(1):
+        axioms = [a.strip() for a in m.group(1).strip().splitlines() if a.strip()]
+    allowed = STDLIB_AXIOMS | set(extra_allowed)
+    tails = {x.split(".")[-1] for x in allowed}
+    bad = [a for a in axioms if a.split(".")[-1] not in tails and not a.startswith("Coq.")]
+    unsafe = [k for k in ("type-in-type", "unsafe (co)fixpoints", "positivity is assumed") if re.search(re.escape(k) + r":\s*(?!<none>)\S", out)]
+    ok = rc == 0 and not bad and not unsafe
+    return dict(ok=ok, axioms=axioms, bad=bad, unsafe=unsafe, log=out[-1500:])
+
+
 def parse_known():
     known, fixed = [], []
     if os.path.exists(KNOWN):
@@ -230,6 +254,7 @@ def conclude(ctx, proof, res, trusted_base, assumptions):
         checker_cmd=f"make -C coq (full .vo build of the model and lemma files) && coqc coq/Props{pid}.v with Print Assumptions parsed",
         trusted_base=trusted_base,
         theorems=proof.get("theorems", []), axioms_reported=proof.get("axioms", []),
+        coqchk=(dict(ok=proof.get("coqchk_ok"), axioms=proof.get("coqchk_axioms")) if "coqchk_ok" in proof else "quick tier: coqchk runs in the thorough tier"),
         evaluations=int(res.get("evaluations", 0)), distinct_nontrivial=int(res.get("distinct_nontrivial", 0)),
         rule=res.get("rule", ""), samples=res.get("samples", [])[:5] or ["(no correspondence cases in this run)"],
         known_findings_printed=kf_printed,
